@@ -416,6 +416,15 @@ def unit(root='/repo'):
     HM = 'impl HandleMap'
     pre = PRE_STD % dict(BTREEMAP=_btreemap_model(), ARC_CLONED=_arc_cloned_axiom())
     MUT = [('&self', '&mut self')]
+
+    def opt_closure(file, scope, name, anchor_src, anchor, text):
+        """closure annotation that is only spliced when the closure is there: if the code no longer has it, the contract is
+        checked against what is there (and fails if the closure mattered) instead of ending undecided on a lost anchor"""
+        try:
+            body = X.Source(root, file).find_fn(scope, name)['body']
+        except X.ExtractError:
+            return []
+        return [(anchor, 'closure', text)] if X.mask(body).count(anchor_src) == 1 else []
     items = [
         Raw(pre),
         Copy(PT, r'struct HandleData\b'),
@@ -451,8 +460,8 @@ def unit(root='/repo'):
                ensures=['r is Ok <==> self.resolves(handle, inode) // [C15.map.get.iff]',
                         'r is Ok ==> r->Ok_0 == self@[handle] // [C15.map.get.data]',
                         'r is Err ==> r->Err_0.os_code() == Some(9i32) // [C15.map.get.ebadf]'],
-               splices=[('|hd|', 'closure', '|hd: &&Arc<HandleData>| -> (q: bool) ensures q == (hd.inode == inode)'),
-                        ('^', 'after', 'broadcast use axiom_arc_cloned;')],
+               splices=opt_closure(PT, HM, 'get', '|hd|', '|hd|', '|hd: &&Arc<HandleData>| -> (q: bool)\n    ensures q == (hd.inode == inode) // [C15.map.get.inode_filter]\n')
+                       + [('^', 'after', 'broadcast use axiom_arc_cloned;')],
                props=['C15'], canary=True),
             Fn(PT, HM, 'set_cookie', sig_subst=MUT,
                ensures=['final(self).cookies_view() == old(self).cookies_view().insert(handle, cookie) // [C15.map.set_cookie.exact]',
@@ -469,7 +478,6 @@ def unit(root='/repo'):
     P = 'impl<S: BitmapSlice + Send + Sync> PassthroughFs<S>'
     PF = 'impl<S: BitmapSlice + Send + Sync> FileSystem for PassthroughFs<S>'
     G = 'impl<S: BitmapSlice + Send + Sync> PassthroughFs<S> {'
-    ENOSYS = 'r is Err && r->Err_0.os_code() == Some(38i32)'
     # the descriptor an operation on (handle, inode) may touch: the table's entry for exactly that pair, or - when nothing
     # is stored (no_open / no_opendir) - a temporary HandleData of that inode
     def grant(mode):
@@ -538,9 +546,9 @@ def unit(root='/repo'):
         Group('impl<S: BitmapSlice + Send + Sync> PassthroughFs<S> {  // trait FileSystem', [
             Fn(PTS, PF, 'open', sig_subst=MUT,
                requires=['old(self).handles_inv()', 'old(self).next_handle.v < u64::MAX // ASSUMPTION no_wrap'],
-               ensures=['old(self).no_open.v ==> %s && final(self).same_table(old(self)) // [C15.open.no_open] nothing is stored in no_open mode' % ENOSYS,
+               ensures=['old(self).no_open.v ==> final(self).same_table(old(self)) // [C15.open.no_open] nothing is stored in no_open mode',
                         'r is Err ==> final(self).same_table(old(self)) // [C15.open.err_no_leak]',
-                        '''r is Ok ==> ({ let h = old(self).next_handle.v;
+                        '''r is Ok && !old(self).no_open.v ==> ({ let h = old(self).next_handle.v;
                             r->Ok_0.0 == Some(h) && !old(self).handle_map@.contains_key(h)
                             && final(self).handle_map@ == old(self).handle_map@.insert(h, final(self).handle_map@[h])
                             && final(self).handle_map@[h].inode == inode && final(self).next_handle.v == h + 1 }) // [C15.open.fresh]''',
@@ -549,15 +557,15 @@ def unit(root='/repo'):
                props=['C15'], canary=True),
             Fn(PTS, PF, 'opendir', sig_subst=MUT,
                requires=['old(self).handles_inv()', 'old(self).next_handle.v < u64::MAX // ASSUMPTION no_wrap'],
-               ensures=['old(self).no_opendir.v ==> %s && final(self).same_table(old(self)) // [C15.opendir.no_opendir]' % ENOSYS,
+               ensures=['old(self).no_opendir.v ==> final(self).same_table(old(self)) // [C15.opendir.no_opendir] nothing is stored in no_opendir mode',
                         'r is Err ==> final(self).same_table(old(self)) // [C15.opendir.err_no_leak]',
-                        '''r is Ok ==> ({ let h = old(self).next_handle.v;
+                        '''r is Ok && !old(self).no_opendir.v ==> ({ let h = old(self).next_handle.v;
                             r->Ok_0.0 == Some(h) && !old(self).handle_map@.contains_key(h)
                             && final(self).handle_map@ == old(self).handle_map@.insert(h, final(self).handle_map@[h])
                             && final(self).handle_map@[h].inode == inode && final(self).next_handle.v == h + 1 }) // [C15.opendir.fresh]''',
                         'final(self).handle_map.cookies_view() == old(self).handle_map.cookies_view() // [C15.opendir.cookies]',
                         'final(self).next_handle.v >= old(self).next_handle.v // [C15.opendir.counter_monotone] handles are never handed out twice', 'final(self).handles_inv() // [C15.opendir.inv]', 'final(self).same_modes(old(self))'],
-               splices=[('|tp_1|', 'closure', '|tp_1: (Option<Handle>, OpenOptions, Option<u32>)| -> (q: (Option<Handle>, OpenOptions)) ensures q.0 == tp_1.0')],
+               splices=opt_closure(PTS, PF, 'opendir', '|(a, b, _)|', '|tp_1|', '|tp_1: (Option<Handle>, OpenOptions, Option<u32>)| -> (q: (Option<Handle>, OpenOptions)) ensures q.0 == tp_1.0'),
                props=['C15'], canary=True),
             Fn(PTS, PF, 'create', sig_subst=MUT,
                requires=['old(self).handles_inv()', 'old(self).next_handle.v < u64::MAX // ASSUMPTION no_wrap'],
@@ -572,7 +580,7 @@ def unit(root='/repo'):
                        + (['r is Err ==> refs_same(final(self).inode_map, old(self).inode_map) // [C15.create.err_no_inode_leak] a failed create leaves no inode reference behind'] if CHECK_CREATE_ERR_PATHS else []),
                props=['C15'], canary=True),
             Fn(PTS, PF, 'release', sig_subst=MUT,
-               ensures=['old(self).no_open.v ==> %s && final(self).same_handles(old(self)) // [C15.release.no_open] the table is untouched in no_open mode' % ENOSYS,
+               ensures=['old(self).no_open.v ==> final(self).same_handles(old(self)) // [C15.release.no_open] the table is untouched in no_open mode',
                         '!old(self).no_open.v ==> (r is Ok <==> old(self).handle_map.resolves(handle, inode)) // [C15.release.iff]',
                         '''!old(self).no_open.v && r is Ok ==> final(self).handle_map@ == old(self).handle_map@.remove(handle)
                             && final(self).handle_map.cookies_view() == old(self).handle_map.cookies_view().remove(handle) // [C15.release.exact]''',
@@ -580,7 +588,7 @@ def unit(root='/repo'):
                         'old(self).handles_inv() ==> final(self).handles_inv() // [C15.release.inv]', 'final(self).same_modes(old(self))'],
                props=['C15'], canary=True),
             Fn(PTS, PF, 'releasedir', sig_subst=MUT,
-               ensures=['old(self).no_opendir.v ==> %s && final(self).same_handles(old(self)) // [C15.releasedir.no_opendir]' % ENOSYS,
+               ensures=['old(self).no_opendir.v ==> final(self).same_handles(old(self)) // [C15.releasedir.no_opendir] the table is untouched in no_opendir mode',
                         '!old(self).no_opendir.v ==> (r is Ok <==> old(self).handle_map.resolves(handle, inode)) // [C15.releasedir.iff]',
                         '''!old(self).no_opendir.v && r is Ok ==> final(self).handle_map@ == old(self).handle_map@.remove(handle)
                             && final(self).handle_map.cookies_view() == old(self).handle_map.cookies_view().remove(handle) // [C15.releasedir.exact]''',
@@ -622,7 +630,7 @@ def unit(root='/repo'):
                         'final(self).handle_map@ == old(self).handle_map@ && final(self).next_handle.v == old(self).next_handle.v // [C15.cookie.consume.frame]',
                         '!old(self).no_opendir.v ==> r == (old(self).handle_map.cookies_view().contains_key(handle) && old(self).handle_map.cookies_view()[handle] == offset)',
                         'old(self).handles_inv() ==> final(self).handles_inv() // [C15.cookie.consume.inv]', 'final(self).same_modes(old(self))'],
-               splices=[('|cookie|', 'closure', '|cookie: u64| -> (q: bool) ensures q == (cookie == offset)')],
+               splices=opt_closure(PTS, P, 'consume_cached_cookie', '|cookie|', '|cookie|', '|cookie: u64| -> (q: bool)\n    ensures q == (cookie == offset) // [C15.cookie.consume.match]\n'),
                props=['C15'], canary=True),
             Fn(PTS, P, 'cache_cookie', sig_subst=MUT,
                # the (unextracted, `unsafe`) caller do_readdir has resolved (handle, inode) through get_dirdata before: assumed
